@@ -1118,7 +1118,7 @@ def has_ti_blob(b):
 
 
 def gen(r, tier):
-    n = {"quick": 1100, "search": 4000, "thorough": 14000}[tier]
+    n = {"quick": 900, "search": 3000, "thorough": 8000}[tier]
     cases = []
     cases += big_cases(r, tier)
     cases += enc_cases(r, n // 10)
